@@ -180,6 +180,13 @@ def _pixel2index_structural(ctx, ck) -> None:
 
 
 
+def _sym_walk(x):
+    yield x
+    for a in getattr(x, 'args', ()) or ():
+        if hasattr(a, 'op') or hasattr(a, 'name'):
+            yield from _sym_walk(a)
+
+
 def _flat_index(ctx, ck, sl) -> bool:
     """P7: pixel2index, however it is written, computes sum_k round(c_k) * prod_{j<k} n_j under the mask
     AND_k (0 <= round(c_k) < n_k): it is evaluated symbolically (sa/axinterp.py) on maps of rank 1-3 with distinct prime
@@ -269,13 +276,15 @@ def _flat_index(ctx, ck, sl) -> bool:
             return True
         return False
 
-    for shape in ((7,), (5, 7), (3, 5, 7)):
+    casts: list = []  # (coordinate dtype, map shape, index dtype the rounded coordinate is converted to, or None)
+
+    for shape, cdtype in (((7,), 'float32'), ((5, 7), 'float32'), ((3, 5, 7), 'float32'), ((5, 7), 'int16'), ((5, 7), 'int32'), ((2**31 + 5,), 'float64'), ((2**31 - 1,), 'float64'), ((70000, 70000), 'int32')):
         pixel_shape = shape[::-1]
         m = len(shape)
         it = Interp(world, table, budget=100_000)
         it.symbolic = True
         me = Obj(sl, {'shape': shape, 'pixel_shape': pixel_shape, 'stokes': 'IQU', 'dtype': Ref('numpy.float64')})
-        coords = [Opaque(f'c{k}') for k in range(m)]
+        coords = [Opaque(f'c{k}', cdtype) for k in range(m)]
         try:
             res = it.call_method(me, 'pixel2index', *coords)
         except Raised as exc:
@@ -292,6 +301,14 @@ def _flat_index(ctx, ck, sl) -> bool:
             undecided.append(f'shape {shape}: the result is {res!r:.120}, not where(mask, index, -1)')
             continue
         mask, index, other = res.args
+        for node_ in _sym_walk(index):
+            if isinstance(node_, Sym) and node_.op in ('jnp.round', 'jnp.around', 'jnp.rint') and node_.args and isinstance(node_.args[0], Opaque):
+                casts.append((cdtype, shape, None, node_.args[0].name))
+            if isinstance(node_, Sym) and node_.op == 'call' and isinstance(node_.args[0], Sym) and node_.args[0].op == '.astype' and len(node_.args) >= 2:
+                inner = node_.args[0].args[0]
+                if isinstance(inner, Sym) and inner.op in ('jnp.round', 'jnp.around', 'jnp.rint') and inner.args and isinstance(inner.args[0], Opaque):
+                    t_ = node_.args[1]
+                    casts.append((cdtype, shape, t_.path.split('.')[-1] if isinstance(t_, Ref) else str(t_), inner.args[0].name))
         if other != -1:
             problems.append(f'the value for pixels outside the map is {other!r}, not -1')
         lin = linear(index)
@@ -327,6 +344,22 @@ def _flat_index(ctx, ck, sl) -> bool:
             extra = norm - want_atoms
             problems.append(f'for a map of shape {shape} the validity mask ' + (f'lacks {sorted(missing, key=str)[:2]}' if missing else '') + (' and ' if missing and extra else '')
                             + (f'tests {sorted(extra, key=str)[:2]} instead of the bounds of each rounded coordinate (a bound on a partial flat index is evaluated in fixed width and can wrap around)' if extra else ''))
+    if not undecided:
+        # every rounded coordinate is converted to the index dtype before it enters the arithmetic: int32, or int64 when the
+        # largest index does not fit (whatever the dtype of the coordinates)
+        import math
+
+        by_case: dict = {}
+        for cdtype, shape, to, name in casts:
+            by_case.setdefault((cdtype, shape, name), set()).add(to)
+        for (cdtype, shape, name), tos in sorted(by_case.items(), key=str):
+            want_dt = 'int32' if math.prod(shape) - 1 <= 2**31 - 1 else 'int64'
+            converted = tos - {None}
+            if not converted:
+                problems.append(f'with {cdtype} coordinates on a map of shape {shape} the rounded coordinate {name} enters the index arithmetic in its own data type (it is never converted to the index type {want_dt}): '
+                                'the index wraps around as soon as it exceeds the range of the coordinate type')
+            elif converted != {want_dt}:
+                problems.append(f'on a map of shape {shape} ({math.prod(shape)} pixels) the coordinates are converted to {sorted(converted)} instead of {want_dt}')
     if undecided:
         ck.incomplete('P7', fn, f'pixel2index could not be evaluated symbolically: {undecided[0]}', instance='flat index formula')
         return False
@@ -346,7 +379,7 @@ def run(ctx, ck) -> None:
         # they cannot follow the code, or disagree with the symbolic evaluation above, P7 stands
         kept = []
         for i, o in enumerate(ck.obs):
-            if i >= before and o.rule.endswith(('P1', 'P2')) and o.status != 'ok':
+            if i >= before and o.rule.endswith(('P1', 'P2', 'P5')) and o.status != 'ok':
                 ck.note(f'{o.rule} [{o.construct}] not decided structurally ({o.status}: {o.how[:100]}); superseded by P7')
                 continue
             kept.append(o)
